@@ -94,7 +94,9 @@ def channel_fidelity(choi_1: np.ndarray, choi_2: np.ndarray, eps: float = 1e-7) 
 
     constraints.append(cvxpy.bmat([[choi_1, q_var.H], [q_var, choi_2]]) >> 0)
 
-    constraints.append(lam * np.identity(dim) <= cvxpy.real(partial_trace(q_var, [1], [dim, dim])))
+    # Loewner order on the Hermitian part of Tr_Y(Q) (not an entrywise inequality on its real part).
+    tr_q = partial_trace(q_var, [1], [dim, dim])
+    constraints.append((tr_q + tr_q.H) / 2 >> lam * np.identity(dim))
 
     problem = cvxpy.Problem(objective, constraints)
 
